@@ -4,8 +4,12 @@ import IbModel.Generated.Tables
 /-!
 Driver handlers for C17 (see `harness/src/c17.rs` for the request grammar):
 `VALIDATE <skip|log|ff> <rec|kv> <mode|short> <COLL> <seq|par:N|par:none> <rows>`, `COMBINE <results>`,
-`VPIPE <skip|log|ff> <rec|kv> <COLL> <seq|par:N|par:none> <steps> <rows>`; `COLL` = `c0` | `c1[+entries]` |
-`cp[+entries]` (the collector before the run: absent / healthy / poisoned, with the entries it already holds).
+`VPIPE <skip|log|ff> <rec|kv> <COLL> <seq|par:N|par:none> <steps> <rows>`,
+`VJOIN <skip|log|ff> <COLL> <EXEC> <lsteps|-> <lrows> <rsteps|-> <rrows>`, `BIG <skip|log|ff> <rec|kv> <COLL> <EXEC> <len> <period> <v|i>`;
+`COLL` = `c0` | `c1[+entries]` | `cp[+entries]` (the collector before the run: absent / healthy / poisoned, with the
+entries it already holds); `EXEC` = `seq` | `par:N` | `par:none` | `ckseq` | `ckpar:N` (`ck…` = the same run through
+`Runner { checkpoint_config: Some(enabled) }`: by `validate_checkpointed_is_plain` the checkpointing engines return
+the very `Run` of the plain ones, so the model evaluates them as `seq` / `par:N`).
 -/
 namespace IB.D17
 open IB.Wire IB.Validation
@@ -82,10 +86,11 @@ inductive Exec
   deriving DecidableEq
 
 def exec? (s : String) : Option Exec :=
-  if s == "seq" then some .seq
+  if s == "seq" || s == "ckseq" then some .seq
   else if s == "par:none" then some .parNone
   else match s.splitOn ":" with
     | ["par", n] => (parseNat? n).map .par
+    | ["ckpar", n] => (parseNat? n).map .par
     | _ => none
 
 def insertStr (x : String) : List String → List String
@@ -99,23 +104,27 @@ def joinOrDash (l : List String) : String := if l.isEmpty then "-" else ",".inte
 def renderEntry (e : RecordError Nat) : String :=
   (e.recordId.getD "none") ++ "/E" ++ digits e.errors
 
-/-- `c0` = the collector before the run; the run's pushes (`r.collector`, one admissible order) are absorbed
+/-- `hashOrder`: the request has a barrier (`gbk`): the rows leave it grouped by key in `HashMap` order, so the kept
+    rows are rendered sorted and the log without ids, sorted (`after_barrier_accounts`: kept rows and logged error
+    lists are determined up to order). `keptUnordered`: a join emits its rows in the `HashMap` order of the keys.
+    `c0` = the collector before the run; the run's pushes (`r.collector`, one admissible order) are absorbed
     into it; the first `|c0|` entries of the result are printed in order (`pre=`), the rest in order for a
     sequential run, sorted for a parallel run (any interleaving is admissible), sorted without ids for `par:none`
     (the ids depend on the machine's partition count; output and payload multiset do not:
     `run_any_partitioning`, `log_accounts`) -/
 def renderRun {α : Type} (render : α → String) (exec : Exec) (fullPanic : Bool) (c0 : Collector Nat)
-    (r : Run α Nat) : String :=
+    (r : Run α Nat) (hashOrder : Bool := false) (keptUnordered : Bool := false) : String :=
   match r.output with
   | some kept =>
     let final := (c0.absorb r.collector).entries
     let k := c0.entries.length
     let rest := final.drop k
-    let log := match exec with
+    let log := if hashOrder then sortStr (rest.map (fun e => "E" ++ digits e.errors)) else match exec with
       | .seq => rest.map renderEntry
       | .par _ => sortStr (rest.map renderEntry)
       | .parNone => sortStr (rest.map (fun e => "E" ++ digits e.errors))
-    "OK kept=" ++ joinOrDash (kept.map render) ++ " pre=" ++ joinOrDash ((final.take k).map renderEntry)
+    let keptS := if hashOrder || keptUnordered then sortStr (kept.map render) else kept.map render
+    "OK kept=" ++ joinOrDash keptS ++ " pre=" ++ joinOrDash ((final.take k).map renderEntry)
       ++ " log=" ++ joinOrDash log
   | none =>
     if exec == .seq && fullPanic then
@@ -132,6 +141,13 @@ def run {α : Type} (op : List α → Outcome α Nat) (exec : Exec) (rows : List
   | .seq => runSeq op rows
   | .par n => runPar op n rows
   | .parNone => runSeq op rows
+
+/-- the source partitions of a run (`par:none`: one, see `run`) -/
+def partsOf {α : Type} (exec : Exec) (rows : List α) : List (List α) :=
+  match exec with
+  | .seq => [rows]
+  | .par n => sourcePartitions n rows
+  | .parNone => [rows]
 
 /-- which (mode, shape, api, collector) combinations the public builders offer -/
 def apiOk (mode : Mode) (keyed short coll : Bool) : Bool :=
@@ -167,10 +183,14 @@ def handleCombine : List String → String
     | none => "BAD-OP"
   | _ => "BAD-OP"
 
-/-! ### `VPIPE`: a block of element-wise steps around validators, through the planner's reorder pass -/
+/-! ### `VPIPE`: blocks of element-wise steps around validators, through the planner's reorder pass; barriers -/
 
 inductive Step
   | inc | heal | brk | odd | val
+  /-- pseudo-steps standing for the operators a `gbk` token puts into the neighbouring blocks: `key_by` in front of
+      the barrier (unkeyed shape only) and the ungrouping `flat_map` behind it. Identity on the model's rows; they
+      are here for their capability flags (the planner looks at every operator of a fused block). -/
+  | keyBy | ungroup
   deriving DecidableEq
 
 def step? : String → Option Step
@@ -200,6 +220,8 @@ def stepFlags? (keyed : Bool) (mode : Mode) (coll : Bool) : Step → Option Flag
   | .val => lookupFlags IB.Generated.validateOpFlags
       ((if keyed then "validate_values_with_mode:" else "validate_with_mode:") ++ modeTok mode ++ ":"
         ++ (if coll then "c1" else "c0"))
+  | .keyBy => lookupFlags IB.Generated.barrierStepFlags "key_by"
+  | .ungroup => lookupFlags IB.Generated.barrierStepFlags "flat_map"
 
 def incRec (r : Rec) : Rec := ⟨r.id, r.errs.map (fun cs => cs.map (fun c => (c + 1) % 10))⟩
 def healRec (r : Rec) : Rec :=
@@ -221,6 +243,7 @@ def blockOfKv (mode : Mode) (coll : Bool) : Step → BlockOp (Int × Rec) Nat
   | .brk => .map (onVal brkRec)
   | .odd => .filter (fun kv => oddRec kv.2)
   | .val => .validator (validateValuesOp Rec.validate mode coll)
+  | .keyBy | .ungroup => .map id
 
 def blockOfRec (mode : Mode) (coll : Bool) : Step → BlockOp Rec Nat
   | .inc => .map incRec
@@ -228,32 +251,140 @@ def blockOfRec (mode : Mode) (coll : Bool) : Step → BlockOp Rec Nat
   | .brk => .map brkRec
   | .odd => .filter oddRec
   | .val => .validator (validateOp Rec.validate mode coll)
+  | .keyBy | .ungroup => .map id
+
+/-- split the step tokens at every `gbk` -/
+def splitStages : List String → List (List String)
+  | [] => [[]]
+  | t :: ts =>
+    match splitStages ts with
+    | [] => [[t]]     -- unreachable
+    | st :: rest => if t == "gbk" then [] :: st :: rest else (t :: st) :: rest
+
+/-- the operators of the fused blocks as the builder calls create them: a `gbk` ends a block (after a `key_by` in
+    the unkeyed shape) and starts the next one with the ungrouping `flat_map` -/
+def decorate (keyed : Bool) : List (List Step) → List (List Step)
+  | [] => []
+  | [last] => [last]
+  | st :: next :: rest =>
+    (if keyed then st else st ++ [.keyBy]) ::
+      (match decorate keyed (next :: rest) with
+       | [] => []
+       | n :: r => (.ungroup :: n) :: r)
+
+/-- the harness' key of an unkeyed record at a `gbk` (`key_of(id) = (id * 7 + 3) % 5`, Rust's truncating `%`) -/
+def keyOfId (i : Int) : Int := (i * 7 + 3).tmod 5
 
 def handleVpipe : List String → String
   | [m, shape, c, e, steps, rows] =>
-    match mode? m, coll? c, exec? e, (steps.splitOn "+").mapM step? with
-    | some mode, some (coll, c0), some exec, some steps =>
+    match mode? m, coll? c, exec? e, (splitStages (steps.splitOn "+")).mapM (fun st => st.mapM step?) with
+    | some mode, some (coll, c0), some exec, some stages0 =>
       let keyed? : Option Bool := if shape == "kv" then some true else if shape == "rec" then some false else none
       match keyed? with
       | none => "BAD-OP"
       | some keyed =>
-      match steps.mapM (fun s => (stepFlags? keyed mode coll s).map (fun f => (s, f))) with
-      | some tagged =>
-        -- the planner fuses the adjacent stateless nodes into one block and runs its reorder pass on it
-        let planned := (reorderBlock (fun (sf : Step × Flags) => sf.2) tagged).map (·.1)
+      let stages := decorate keyed stages0
+      -- the planner fuses the adjacent stateless nodes into one block per stage and runs its reorder pass on each
+      let plan : List Step → Option (List Step) := fun st =>
+        (st.mapM (fun s => (stepFlags? keyed mode coll s).map (fun f => (s, f)))).map
+          (fun tagged => (reorderBlock (fun (sf : Step × Flags) => sf.2) tagged).map (·.1))
+      match stages.mapM plan with
+      | some (first :: later) =>
+        let barrier := !later.isEmpty
         if keyed then
           match listOf? kv? rows with
-          | some rs => renderRun renderKv exec false c0 (run (blockOp (planned.map (blockOfKv mode coll))) exec rs)
+          | some rs =>
+            renderRun renderKv exec false c0
+              (runStages (regroupBy (fun kv : Int × Rec => kv.1)) (blockOp (first.map (blockOfKv mode coll)))
+                (later.map (fun st => blockOp (st.map (blockOfKv mode coll)))) (partsOf exec rs)) barrier
           | none => "BAD-OP"
         else
           match listOf? rec? rows with
-          | some rs => renderRun renderRec exec false c0 (run (blockOp (planned.map (blockOfRec mode coll))) exec rs)
+          | some rs =>
+            renderRun renderRec exec false c0
+              (runStages (regroupBy (fun r : Rec => keyOfId r.id)) (blockOp (first.map (blockOfRec mode coll)))
+                (later.map (fun st => blockOp (st.map (blockOfRec mode coll)))) (partsOf exec rs)) barrier
           | none => "BAD-OP"
-      | none => "BAD-OP"
+      | _ => "BAD-OP"
     | _, _, _, _ => "BAD-OP"
   | _ => "BAD-OP"
 
+/-! ### `VJOIN`: `join_inner` of two keyed collections whose sides are blocks with validators
+
+The two sub-chains of a `CoGroup` are taken from the graph as written (`chain_from`); the planner's passes run on
+the main chain only, so no reorder pass is applied to the sides. -/
+
+def renderJoined (row : Int × (Rec × Rec)) : String :=
+  toString row.1 ++ "=" ++ renderRec row.2.1 ++ "&" ++ renderRec row.2.2
+
+def sideSteps? (s : String) : Option (List Step) :=
+  if s == "-" then some [] else (s.splitOn "+").mapM step?
+
+def handleVjoin : List String → String
+  | [m, c, e, lsteps, lrows, rsteps, rrows] =>
+    match mode? m, coll? c, exec? e, sideSteps? lsteps, sideSteps? rsteps, listOf? kv? lrows, listOf? kv? rrows with
+    | some mode, some (coll, c0), some exec, some ls, some rs, some lr, some rr =>
+      if exec == .parNone then "BAD-OP" else
+      renderRun renderJoined exec false c0
+        (runJoin (blockOp (ls.map (blockOfKv mode coll))) (blockOp (rs.map (blockOfKv mode coll)))
+          innerJoin (partsOf exec lr) (partsOf exec rr)) false true
+    | _, _, _, _, _, _, _ => "BAD-OP"
+  | _ => "BAD-OP"
+
+/-! ### `BIG`: one large formula-generated input, answered by counts and checksums -/
+
+def hashMod : Nat := 1000000007
+
+def strHash (s : String) : Nat := s.foldl (fun h ch => (h * 131 + ch.toNat) % hashMod) 7
+
+/-- order-dependent -/
+def seqHash (l : List String) : Nat := l.foldl (fun h s => (h * 1000003 + strHash s) % hashMod) 1
+
+/-- order-independent -/
+def sumHash (l : List String) : Nat := l.foldl (fun h s => (h + strHash s) % hashMod) 0
+
+/-- row `i` of a `BIG` input: pattern `v`: valid iff `i % period = period - 1`; pattern `i` (`inv`): INVALID iff
+    `i % period = period - 1`; an invalid row has four errors spelling `i` backwards -/
+def bigRec (period : Nat) (inv : Bool) (i : Nat) : Rec :=
+  ⟨Int.ofNat i, if (i % period == period - 1) != inv then none else some [i % 10, i / 10 % 10, i / 100 % 10, i / 1000 % 10]⟩
+
+def bigKey (i : Nat) : Int := Int.ofNat ((i * 7 + 3) % 5)
+
+def renderBig {α : Type} (render : α → String) (exec : Exec) (c0 : Collector Nat) (r : Run α Nat) : String :=
+  match r.output with
+  | some kept =>
+    let final := (c0.absorb r.collector).entries
+    let k := c0.entries.length
+    let rest := (final.drop k).map renderEntry
+    "OK kept=" ++ toString kept.length ++ " khash=" ++ toString (seqHash (kept.map render))
+      ++ " pre=" ++ joinOrDash ((final.take k).map renderEntry)
+      ++ " log=" ++ toString rest.length ++ " lsum=" ++ toString (sumHash rest)
+      ++ " lseq=" ++ toString (if exec == .seq then seqHash rest else 0)
+  | none =>
+    if exec == .seq then
+      match r.panics with
+      | [(i, es)] => "PANIC at=" ++ toString i ++ ":E" ++ digits es
+      | _ => "BAD-OP"
+    else "PANIC"
+
+def handleBig : List String → String
+  | [m, shape, c, e, len, period, pat] =>
+    let inv? : Option Bool := if pat == "v" then some false else if pat == "i" then some true else none
+    match mode? m, coll? c, exec? e, parseNat? len, parseNat? period, inv? with
+    | some mode, some (coll, c0), some exec, some len, some period, some inv =>
+      if period == 0 || exec == .parNone then "BAD-OP" else
+      let recs := (List.range len).map (bigRec period inv)
+      if shape == "rec" then
+        renderBig renderRec exec c0 (run (validateOp Rec.validate mode coll) exec recs)
+      else if shape == "kv" then
+        let kvs := (List.range len).map (fun i => (bigKey i, bigRec period inv i))
+        renderBig renderKv exec c0 (run (validateValuesOp Rec.validate mode coll) exec kvs)
+      else "BAD-OP"
+    | _, _, _, _, _, _ => "BAD-OP"
+  | _ => "BAD-OP"
+
 def handlers : List (String × (List String → String)) :=
-  [("VALIDATE", handleValidate), ("COMBINE", handleCombine), ("VPIPE", handleVpipe)]
+  [("VALIDATE", handleValidate), ("COMBINE", handleCombine), ("VPIPE", handleVpipe), ("VJOIN", handleVjoin),
+   ("BIG", handleBig)]
 
 end IB.D17
